@@ -20,7 +20,11 @@ TRANSLATORS = [("gotolean", "Trans.lean", "Generated.Trans", "trans.json"),
                # quartz/scheduler.go: one iteration of startExecutionLoop, calculateNextTick, executeAndReschedule, Reset; imports TransSched.lean
                ("gotolean-loop", "TransLoop.lean", "Generated.TransLoop", "trans_loop.json"),
                # quartz/scheduler.go: executeWithRetries, the dispatch switch, startWorkers
-               ("gotolean-retry", "TransRetry.lean", "Generated.TransRetry", "trans_retry.json")]
+               ("gotolean-retry", "TransRetry.lean", "Generated.TransRetry", "trans_retry.json"),
+               # logger/*.go and job/isolated_job.go
+               ("gotolean-logger", "TransLogger.lean", "Generated.TransLogger", "trans_logger.json"),
+               # job/function_job.go, shell_job.go, curl_job.go, job_status.go
+               ("gotolean-jobs", "TransJobs.lean", "Generated.TransJobs", "trans_jobs.json")]
 QMODEL = os.path.join(LEAN, ".lake", "build", "bin", "qmodel")
 GOENV = dict(os.environ, GOFLAGS="-mod=mod", GOPROXY="off", GOSUMDB="off", GOTOOLCHAIN="local",
              CGO_ENABLED=os.environ.get("CGO_ENABLED", "0"))
